@@ -550,8 +550,12 @@ impl CraneliftCompiler {
                     let safe_rhs = bcx.ins().select(rhs_is_zero, one, rhs);
                     let div_res = bcx.ins().urem(lhs, safe_rhs);
 
-                    let res = bcx.ins().select(rhs_is_zero, lhs, div_res);
-                    self.set_dst32(bcx, &insn, res);
+                    // Modulo by zero leaves the whole destination register unchanged, as in the
+                    // interpreter and the x86-64 JIT.
+                    let div_res = bcx.ins().uextend(I64, div_res);
+                    let unchanged = self.insn_dst(bcx, &insn);
+                    let res = bcx.ins().select(rhs_is_zero, unchanged, div_res);
+                    self.set_dst(bcx, &insn, res);
                 }
                 ebpf::XOR32_IMM => {
                     // reg[_dst] = (reg[_dst] as u32             ^ insn.imm  as u32) as u64,
